@@ -172,7 +172,7 @@ func Pending(files []File, revs []Rev, o Options) Decision {
 }
 
 // Set computes the documented effect of `migrate set v` on the history: revisions above v
-// are removed, a partial or failed revision at v is marked resolved, and every file after
+// are removed, every partial or failed revision up to and including v is marked resolved, and every file after
 // the last remaining revision up to and including v gets a resolved revision.
 func Set(files []File, revs []Rev, v string) []Rev {
 	files = append([]File(nil), files...)
@@ -181,7 +181,7 @@ func Set(files []File, revs []Rev, v string) []Rev {
 	for _, r := range revs {
 		switch {
 		case r.Version > v:
-		case r.Version == v && r.Applied != r.Total:
+		case r.Applied != r.Total: // at or below v: "all migrations up to and including v are applied"
 			r.Resolved = true
 			out = append(out, r)
 		default:
